@@ -190,10 +190,37 @@ fn output_tree(resources: &Resources) -> BTreeMap<String, String> {
         .collect()
 }
 
+/// contents are replaced by small numbers; the table is printed as `{"blob":id,"hex":..}` lines
+static BLOBS: std::sync::Mutex<Option<(std::collections::HashMap<String, u64>, Vec<String>)>> =
+    std::sync::Mutex::new(None);
+
+fn intern(content: &str) -> u64 {
+    let mut guard = BLOBS.lock().unwrap_or_else(|poisoned| poisoned.into_inner());
+    let table = guard.get_or_insert_with(|| (std::collections::HashMap::new(), Vec::new()));
+    if let Some(id) = table.0.get(content) {
+        return *id;
+    }
+    let id = table.0.len() as u64;
+    table.0.insert(content.to_owned(), id);
+    table
+        .1
+        .push(format!("{{\"blob\":{},\"hex\":\"{}\"}}", id, hex(content.as_bytes())));
+    id
+}
+
+fn flush_blobs() {
+    let mut guard = BLOBS.lock().unwrap_or_else(|poisoned| poisoned.into_inner());
+    if let Some(table) = guard.as_mut() {
+        for line in table.1.drain(..) {
+            println!("{}", line);
+        }
+    }
+}
+
 fn tree_json(tree: &BTreeMap<String, String>) -> Value {
     Value::Object(
         tree.iter()
-            .map(|(path, content)| (path.clone(), Value::String(hex(content.as_bytes()))))
+            .map(|(path, content)| (path.clone(), json!(intern(content))))
             .collect(),
     )
 }
@@ -252,7 +279,7 @@ fn dump_json(tree: &WorkerTree) -> Value {
 }
 
 /// the model-independent oracle: a fresh run over the user's files into an empty output folder
-fn fresh_run(user_files: &BTreeMap<String, String>) -> Value {
+fn fresh_run(user_files: &BTreeMap<String, String>) -> (Value, BTreeMap<String, String>) {
     let resources = Resources::from_memory();
     for (path, content) in user_files {
         if !Path::new(path).starts_with(OUTPUT) {
@@ -263,10 +290,19 @@ fn fresh_run(user_files: &BTreeMap<String, String>) -> Value {
     match result {
         Ok(Ok(tree)) => {
             let out = output_tree(&resources);
-            json!({ "out": tree_json(&out), "state": dump_json(&tree), "error": Value::Null })
+            (
+                json!({ "out": tree_json(&out), "state": dump_json(&tree), "error": Value::Null }),
+                out,
+            )
         }
-        Ok(Err(err)) => json!({ "out": {}, "state": Value::Null, "error": err.to_string() }),
-        Err(_) => json!({ "out": {}, "state": Value::Null, "error": "PANIC" }),
+        Ok(Err(err)) => (
+            json!({ "out": {}, "state": Value::Null, "error": err.to_string() }),
+            BTreeMap::new(),
+        ),
+        Err(_) => (
+            json!({ "out": {}, "state": Value::Null, "error": "PANIC" }),
+            BTreeMap::new(),
+        ),
     }
 }
 
@@ -403,7 +439,7 @@ fn sources_json(user_files: &BTreeMap<String, String>) -> Value {
         user_files
             .iter()
             .filter(|(path, _)| !Path::new(path).starts_with(OUTPUT))
-            .map(|(p, c)| (p.clone(), Value::String(hex(c.as_bytes()))))
+            .map(|(p, c)| (p.clone(), json!(intern(c))))
             .collect(),
     )
 }
@@ -438,6 +474,16 @@ fn run_history(history: &[Ev], verbose: bool) -> Value {
                 }
             }
         }
+        let written = match event {
+            Ev::Edit(path, _) | Ev::Break(path) | Ev::Add(path, _) | Ev::AddSource(path, _) => {
+                Some(path.as_str())
+            }
+            Ev::Config(_) => Some(CONFIG),
+            _ => None,
+        };
+        if let Some(content) = written.and_then(|path| world.user_files.get(path)) {
+            step["content"] = json!(intern(content));
+        }
         if let Some(tree) = world.tree.as_ref() {
             step["state"] = dump_json(tree);
         }
@@ -445,19 +491,9 @@ fn run_history(history: &[Ev], verbose: bool) -> Value {
         step["out"] = tree_json(&out);
         if *event == Ev::Process {
             // oracle (a): fresh run over the same final inputs and configuration
-            let fresh = fresh_run(&world.user_files);
+            let (fresh, fresh_out) = fresh_run(&world.user_files);
             let mut expected: BTreeMap<String, String> = world.foreign();
-            if let Some(map) = fresh["out"].as_object() {
-                for (path, content) in map {
-                    let bytes: Vec<u8> = (0..content.as_str().unwrap().len() / 2)
-                        .map(|i| {
-                            u8::from_str_radix(&content.as_str().unwrap()[2 * i..2 * i + 2], 16)
-                                .unwrap()
-                        })
-                        .collect();
-                    expected.insert(path.clone(), String::from_utf8(bytes).unwrap());
-                }
-            }
+            expected.extend(fresh_out);
             let equal = expected == out;
             step["fresh"] = fresh;
             step["user_files"] = sources_json(&world.user_files);
@@ -488,7 +524,13 @@ fn run_history(history: &[Ev], verbose: bool) -> Value {
         }
         steps.push(step);
     }
-    json!({ "h": render_history(history), "verdict": verdict, "detail": detail, "steps": steps })
+    json!({
+        "h": render_history(history),
+        "verdict": verdict,
+        "detail": detail,
+        "initial": tree_json(&initial_files()),
+        "steps": steps,
+    })
 }
 
 fn run_with_limit(history: Vec<Ev>, limit: Duration) -> Value {
@@ -628,6 +670,11 @@ fn enumerate(prefix: &mut Vec<Ev>, remaining: usize, full: bool, sink: &mut dyn 
     }
 }
 
+fn emit(value: Value) {
+    flush_blobs();
+    println!("{}", value);
+}
+
 fn main() {
     let args: Vec<String> = std::env::args().skip(1).collect();
     let mode = args.first().cloned().unwrap_or_default();
@@ -636,7 +683,7 @@ fn main() {
     match mode.as_str() {
         "run" => {
             let history = parse_history(&args[1]);
-            println!("{}", run_with_limit(history, limit));
+            emit(run_with_limit(history, limit));
         }
         "enum" => {
             let length = arg_u64(&args, "--len", 2) as usize;
@@ -650,7 +697,7 @@ fn main() {
                 }
             });
             for history in histories {
-                println!("{}", run_with_limit(history, limit));
+                emit(run_with_limit(history, limit));
             }
         }
         "random" => {
@@ -677,7 +724,7 @@ fn main() {
                 if history.last() != Some(&Ev::Process) {
                     history.push(Ev::Process);
                 }
-                println!("{}", run_with_limit(history, limit));
+                emit(run_with_limit(history, limit));
             }
         }
         _ => {
